@@ -807,7 +807,10 @@ def run(ctx):
                 "with the Lean model (coordinates, levels, weights, raw compute_weights vector, error kind, integrate of a random value table) "
                 "and checked against the property clauses computed independently in Fractions; 8% malformed inputs (unsorted, wrong level "
                 "length, < 3 points, duplicates, both flags, domain mismatch); 2-D tensor cases; high-order / Lagrange / B-spline families "
-                "(p in 1,2,3,5) are checked by the oracle only (constants, linear, degree p when the tree is complete to the required level). "
+                "(p in 1,2,3,5) are checked by the oracle only (constants, linear, degree p when the tree is complete to the required level); "
+                "object histories: ONE grid object re-used for 3-6 set_grid calls (same level labels with different points via a shared split "
+                "order with other ratios, same points with other levels, other trees; also 2-D grids whose two dimensions share interval and "
+                "level labels), every step checked like a single case (model, fresh object, plIntegral, linear exactness) for all families. "
                 "A case is distinct by its full input; non-trivial if it has >= 4 points or is malformed")
     ctx.assumptions.append("GlobalHighOrderGrid / GlobalLagrangeGrid / GlobalBSplineGrid: no exact Lean model; validated by the oracle at %g" % TOL_HIER)
     ctx.assumptions.append("'enough points' for order p: tree complete to level max(1,p-1) (Lagrange: basis of level l has degree min(l+1,p)) resp. ceil(log2(p+1)) (B-spline: the code's own switch)")
@@ -816,12 +819,13 @@ def run(ctx):
     n_trap = 2500 if not thorough else 40000
     n_fam = 700 if not thorough else 12000
     n_2d = 100 if not thorough else 1500
+    n_hist = 400 if not thorough else 5000
     budget = 95 if not thorough else 600
     for case in deep_graded_cases():
         run_case(ctx, drv, case)
         ctx.count("deep_graded_m%d" % case["deep"])
         ctx.case(case, nontrivial=True)
-    plan = ["trap"] * n_trap + ["family"] * n_fam + ["trap2d"] * n_2d
+    plan = ["trap"] * n_trap + ["family"] * n_fam + ["trap2d"] * n_2d + ["history"] * n_hist
     rng.shuffle(plan)
     for idx, kind in enumerate(plan):
         if ctx.time_left(budget) < 0:
@@ -831,6 +835,8 @@ def run(ctx):
             case = gen_malformed(rng) if rng.random() < 0.08 else gen_trap_case(rng, thorough)
         elif kind == "trap2d":
             case = gen_trap2d(rng)
+        elif kind == "history":
+            case = gen_history(rng, thorough)
         else:
             case = gen_family_case(rng, thorough)
         try:
@@ -846,7 +852,10 @@ def run(ctx):
                 ctx.count("malformed_" + case["malformed"])
             nontrivial = len(case["pts"]) >= 4 or bool(case.get("malformed"))
         elif kind == "trap2d":
-            ctx.count("trap2d")
+            ctx.count("trap2d_shared_shape" if case.get("shared_shape") else "trap2d")
+            nontrivial = True
+        elif kind == "history":
+            ctx.count("history_%s_b%d_m%d_dim%d" % (case["family"], case["boundary"], case["modified"], case["dim"]))
             nontrivial = True
         else:
             ctx.count("family_%s_p%s_b%d_m%d" % (case["family"], case["p"], case["boundary"], case["modified"]))
